@@ -821,3 +821,44 @@ func ParseExtension(t uint16, body []byte) (*ClientHello, error) {
 	}
 	return ch, nil
 }
+
+// Marshal re-encodes a ServerHello / HelloRetryRequest handshake message.
+func (sh *ServerHello) Marshal() []byte {
+	body := []byte{byte(sh.Version >> 8), byte(sh.Version)}
+	body = append(body, sh.Random...)
+	body = append(body, byte(len(sh.SessionID)))
+	body = append(body, sh.SessionID...)
+	body = append(body, byte(sh.Suite>>8), byte(sh.Suite), sh.Compression)
+	if sh.Exts != nil {
+		var ex []byte
+		for _, e := range sh.Exts {
+			ex = append(ex, byte(e.Type>>8), byte(e.Type), byte(len(e.Data)>>8), byte(len(e.Data)))
+			ex = append(ex, e.Data...)
+		}
+		body = append(body, byte(len(ex)>>8), byte(len(ex)))
+		body = append(body, ex...)
+	}
+	return append([]byte{2, byte(len(body) >> 16), byte(len(body) >> 8), byte(len(body))}, body...)
+}
+
+// SetExt replaces or appends an extension.
+func (sh *ServerHello) SetExt(t uint16, data []byte) {
+	for i := range sh.Exts {
+		if sh.Exts[i].Type == t {
+			sh.Exts[i].Data = data
+			return
+		}
+	}
+	sh.Exts = append(sh.Exts, Ext{t, data})
+}
+
+// DelExt removes an extension.
+func (sh *ServerHello) DelExt(t uint16) {
+	var out []Ext
+	for _, e := range sh.Exts {
+		if e.Type != t {
+			out = append(out, e)
+		}
+	}
+	sh.Exts = out
+}
